@@ -2257,10 +2257,125 @@ func c18ResolveMarshal(fns []*ssa.Function, v ssa.Value, use ssa.Instruction, de
 
 // ---------- R4 ----------
 
+// c18R4CredsStoreCallers (mutation sweep, store.go|neg-cond|5 and |6): who may
+// call the Config method that sets the credentials store (role: exported
+// method storing its string parameter into the creds field and saving).  With
+// an empty argument the save DELETES the "credsStore" key of the user's config
+// file, so every caller outside the config package calls it only behind
+// "argument is not empty", and the error of the save surfaces.
+func c18R4CredsStoreCallers(c *Ctx, R4 string) {
+	var setters []*ssa.Function
+	for _, f := range c11FuncsOfPkg(c.P, c18CfgPkg) {
+		if f.Parent() != nil || f.Signature.Recv() == nil || ErrResultIndex(f.Signature) < 0 {
+			continue
+		}
+		AllInstrs(f, func(in ssa.Instruction) {
+			st, ok := in.(*ssa.Store)
+			if !ok {
+				return
+			}
+			fa, ok := st.Addr.(*ssa.FieldAddr)
+			if !ok || fieldName(fa.X.Type(), fa.Field) != c18Cfg+"."+c18FCreds {
+				return
+			}
+			for _, r := range Roots(st.Val) {
+				if prm, isP := r.(*ssa.Parameter); isP && prm.Parent() == f {
+					setters = append(setters, f)
+				}
+			}
+		})
+	}
+	sameObj := func(a, b ssa.Value) bool {
+		if c11SameRoots(a, b) {
+			return true
+		}
+		la, ok1 := a.(*ssa.UnOp)
+		lb, ok2 := b.(*ssa.UnOp)
+		if ok1 && ok2 && la.Op == token.MUL && lb.Op == token.MUL {
+			fva, isA := la.X.(*ssa.FreeVar)
+			fvb, isB := lb.X.(*ssa.FreeVar)
+			return isA && isB && fva == fvb && !freeVarWritten(fva.Parent(), fva)
+		}
+		return false
+	}
+	same := func(a, b ssa.Value) bool {
+		if c11SameLoc(a, b) {
+			return true
+		}
+		ra, rb := Roots(a), Roots(b)
+		if len(ra) != 1 || len(rb) != 1 {
+			return false
+		}
+		la, ok1 := ra[0].(*ssa.UnOp)
+		lb, ok2 := rb[0].(*ssa.UnOp)
+		if !ok1 || !ok2 {
+			return false
+		}
+		fa, ok1 := la.X.(*ssa.FieldAddr)
+		fb, ok2 := lb.X.(*ssa.FieldAddr)
+		if !ok1 || !ok2 || fa.Field != fb.Field || !sameObj(fa.X, fb.X) {
+			return false
+		}
+		written := false
+		AllInstrs(la.Parent(), func(in ssa.Instruction) {
+			if st, ok := in.(*ssa.Store); ok {
+				if f, ok := st.Addr.(*ssa.FieldAddr); ok && f.Field == fa.Field && sameObj(f.X, fa.X) {
+					written = true
+				}
+			}
+		})
+		return !written
+	}
+	for _, S := range setters {
+		for f := range c.P.All {
+			if !inModule(f) || len(f.Blocks) == 0 || fnPkgPath(f) == pkgPath(c18CfgPkg) || strings.HasSuffix(fnPkgPath(f), "_test") {
+				continue
+			}
+			for _, call := range Calls(f, func(string) bool { return true }) {
+				if StaticCallee(call) != S {
+					continue
+				}
+				args := call.Common().Args
+				arg := args[len(args)-1]
+				okArg := false
+				if k, isK := constString(arg); isK && k != "" {
+					okArg = true
+				}
+				var nonEmpty []Edge
+				for _, i := range Ifs(f) {
+					cond, t, fe := ifEdges(i)
+					b, ok := cond.(*ssa.BinOp)
+					if !ok || (b.Op != token.EQL && b.Op != token.NEQ) {
+						continue
+					}
+					for _, pair := range [][2]ssa.Value{{b.X, b.Y}, {b.Y, b.X}} {
+						if k, isK := constString(pair[1]); isK && k == "" && same(pair[0], arg) {
+							if b.Op == token.NEQ {
+								nonEmpty = append(nonEmpty, t)
+							} else {
+								nonEmpty = append(nonEmpty, fe)
+							}
+						}
+					}
+				}
+				if len(nonEmpty) > 0 && MustPass(call.(ssa.Instruction), newCut().Edges(nonEmpty...)) {
+					okArg = true
+				}
+				key := FnName(f) + "|" + S.Name()
+				c.Check(R4, key+"|only-with-non-empty-store", call.Pos(), okArg, ifelse(okArg, "called only behind \"the value is not empty\"",
+					"the credentials store is set without a dominating non-empty test of the value: with an empty value the save deletes the \"credsStore\" key of the user's config file"))
+				r := ErrFlow(call, ErrFlowOpts{})
+				c.Check(R4, key+"|save-error-surfaces", call.Pos(), r.OK, ifelse(r.OK, r.How, "a failure to save the credentials store into the config file is swallowed (or success is turned into an error): "+r.Detail))
+			}
+		}
+	}
+}
+
 func c18R4(c *Ctx) {
 	const R4 = "C18.R4.format-guard"
 	c.Expect(R4, 5)
 	c18Forwarding(c, R4)
+	c18R4CredsStoreCallers(c, R4)
 	if c.P.Fn("registry/remote/credentials", "FileStore.Put") == nil {
 		c.LostAnchor(R4, "(*~/registry/remote/credentials.FileStore).Put")
 		return
@@ -2398,13 +2513,20 @@ func c18Forwarding(c *Ctx, R4 string) {
 }
 
 var c18Mutants = []Mutant{
+	// R4 creds-store callers (mutation sweep survivors registry/remote/credentials/store.go|neg-cond|5 and |6; both keep the whole suite green)
+	{Name: "creds-store-set-when-nothing-detected", File: "registry/remote/credentials/store.go",
+		Old: "\t\tif ds.detectedCredsStore != \"\" {", New: "\t\tif !(ds.detectedCredsStore != \"\") {",
+		Expect: "C18.R4.format-guard|(*~/registry/remote/credentials.DynamicStore).Put$1|SetCredentialsStore|only-with-non-empty-store"},
+	{Name: "creds-store-save-error-inverted", File: "registry/remote/credentials/store.go",
+		Old: "\t\t\tif err := ds.config.SetCredentialsStore(ds.detectedCredsStore); err != nil {", New: "\t\t\tif err := ds.config.SetCredentialsStore(ds.detectedCredsStore); !(err != nil) {",
+		Expect: "C18.R4.format-guard|(*~/registry/remote/credentials.DynamicStore).Put$1|SetCredentialsStore|save-error-surfaces"},
 	// R7 (the first keeps the repository's tests green)
 	{Name: "open-error-taken-for-missing-file", File: "registry/remote/credentials/internal/config/config.go",
 		Old: "\t\tif os.IsNotExist(err) {", New: "\t\tif err != nil {",
 		Expect: "C18.R7.load-keeps-the-document|~/registry/remote/credentials/internal/config.Load|open-error-surfaces-unless-missing"},
 	{Name: "document-decode-error-ignored", File: "registry/remote/credentials/internal/config/config.go",
-		Old: "\tif err := json.NewDecoder(configFile).Decode(&cfg.content); err != nil {\n\t\treturn nil, fmt.Errorf(\"failed to decode config file at %s: %w: %v\", configPath, ErrInvalidConfigFormat, err)\n\t}",
-		New: "\t_ = json.NewDecoder(configFile).Decode(&cfg.content)",
+		Old:    "\tif err := json.NewDecoder(configFile).Decode(&cfg.content); err != nil {\n\t\treturn nil, fmt.Errorf(\"failed to decode config file at %s: %w: %v\", configPath, ErrInvalidConfigFormat, err)\n\t}",
+		New:    "\t_ = json.NewDecoder(configFile).Decode(&cfg.content)",
 		Expect: "C18.R7.load-keeps-the-document|~/registry/remote/credentials/internal/config.Load|document-decoded-whole"},
 	// R6
 	{Name: "tokens-swapped-on-write", File: "registry/remote/credentials/internal/config/config.go",
